@@ -140,6 +140,215 @@ Section Seg.
         * rewrite deliver_rest, Ed. reflexivity.
       + rewrite (step_bad_ext default_maxtr _ _ c HI Hb' Es). reflexivity.
     - split; [exact HI|rewrite Ep; reflexivity].
-    - split; [exact HI|]. unfold stable. rewrite Ep. tauto.
+    - split; [unfold CInv; rewrite Ep; exact I|]. unfold stable. rewrite Ep. tauto.
   Qed.
 End Seg.
+
+Section Seg2.
+  Variable resp : nat -> bool.
+  Notation step := (C18.Model.step resp).
+  Notation D := (C18.Model.D resp).
+
+  (* what a second delivery [c] does after the outcome of the first *)
+  Definition bind (r : list ev * state) (c : bytes) : list ev * state :=
+    match r with
+    | (e, Some (x', r')) => let '(e', s') := D x' (r' ++ c) in (e ++ e', s')
+    | (e, None) => (e, None)
+    end.
+
+  Lemma D_nil : forall x, D x [] = ([], Some (x, [])).
+  Proof. intros. rewrite D_unfold. reflexivity. Qed.
+
+  Lemma stable_dec : forall x b, {stable x b} + {~ stable x b}.
+  Proof.
+    intros x b. unfold stable. destruct (ph x) as [| |rh n acc|rh d acc| |]; auto.
+    - destruct (N.leb n (N.of_nat (length b))) eqn:E; [left|right]; lia.
+    - destruct (d_md d); try (left; discriminate).
+      destruct (N.leb (d_rem d) (N.of_nat (length b))) eqn:E; [left; intros _|right; intros H; specialize (H eq_refl)]; lia.
+  Qed.
+
+  Lemma deliver_same : forall x1 x2 r body rest, pers x1 = pers x2 -> nreq x1 = nreq x2 ->
+    deliver resp x1 r body rest = deliver resp x2 r body rest.
+  Proof. intros x1 x2 r body rest H1 H2. unfold deliver. rewrite H1, H2. reflexivity. Qed.
+
+  Lemma D_ne : forall x b, b <> [] -> D x b =
+    match step x b with
+    | Emit e x' r => let '(e', s) := D x' r in (e ++ e', s)
+    | Wait x' => ([], Some (x', b))
+    | Fail e => (e, None)
+    end.
+  Proof. intros x b Hb. rewrite D_unfold. destruct b; [congruence|reflexivity]. Qed.
+
+  Lemma app_ne : forall (b c : bytes), b <> [] -> b ++ c <> [].
+  Proof. intros [|x b] c H; [congruence|discriminate]. Qed.
+
+  Lemma D_app : forall n x b c, cmu x b < n -> CInv x b -> D x (b ++ c) = bind (D x b) c.
+  Proof.
+    induction n as [|n IH]; intros x b c Hn HI; [lia|].
+    destruct b as [|b0 bl].
+    { rewrite D_nil. unfold bind. simpl. destruct (D x c). reflexivity. }
+    remember (b0 :: bl) as b eqn:Hbeq. assert (Hb : b <> []) by (subst; discriminate). clear Hbeq b0 bl.
+    pose proof (app_ne b c Hb) as Hbc.
+    pose proof (step_ext resp x b c HI Hb) as Hext.
+    rewrite (D_ne x b Hb).
+    destruct (step x b) as [e x' r|x'|e] eqn:Es.
+    - destruct Hext as [HI' Hst].
+      assert (Hmu : cmu x' r < cmu x b) by (eapply step_emit_mu; eauto).
+      destruct (stable_dec x b) as [Hs|Hns].
+      + (* the first handler call does not look beyond the buffer *)
+        specialize (Hst Hs). rewrite (D_ne x (b ++ c) Hbc), Hst.
+        rewrite (IH x' r c) by (lia || exact HI').
+        destruct (D x' r) as [e1 [[x2 r2]|]]; unfold bind.
+        * destruct (D x2 (r2 ++ c)) as [e2 s2]. rewrite app_assoc. reflexivity.
+        * reflexivity.
+      + (* it does: a body that continues beyond the buffer, or a dead channel *)
+        clear Hst. unfold stable in Hns. unfold C18.Model.step in Es.
+        destruct (ph x) as [sk|m t v pending h|rh nn acc|rh d acc| |] eqn:Ep; try tauto.
+        * (* identity decoder *)
+          destruct (N.ltb (N.of_nat (length b)) nn) eqn:El; [|lia].
+          injection Es as <- <- <-. rewrite D_nil. unfold bind. cbn [app].
+          destruct c as [|c0 cl].
+          { rewrite app_nil_r. rewrite (D_ne x b Hb).
+            unfold C18.Model.step. rewrite Ep, El. rewrite !D_nil. reflexivity. }
+          remember (c0 :: cl) as c eqn:Hceq. assert (Hc : c <> []) by (subst; discriminate). clear Hceq c0 cl.
+          rewrite (D_ne x (b ++ c) Hbc). rewrite (D_ne _ c Hc).
+          unfold C18.Model.step. rewrite Ep. cbn [ph hsize pers nreq].
+          assert (Hlen : length (b ++ c) = length b + length c) by apply app_length.
+          destruct (N.ltb (N.of_nat (length c)) (nn - N.of_nat (length b))) eqn:E2.
+          -- destruct (N.ltb (N.of_nat (length (b ++ c))) nn) eqn:E3; [|lia].
+             rewrite !D_nil. cbn [app].
+             replace (nn - N.of_nat (length (b ++ c)))%N with (nn - N.of_nat (length b) - N.of_nat (length c))%N by lia.
+             rewrite app_assoc. reflexivity.
+          -- destruct (N.ltb (N.of_nat (length (b ++ c))) nn) eqn:E3; [lia|].
+             rewrite firstn_app, (@firstn_all2 _ (N.to_nat nn) b) by lia.
+             rewrite skipn_app, (@skipn_all2 _ (N.to_nat nn) b) by lia. cbn [app].
+             replace (N.to_nat nn - length b) with (N.to_nat (nn - N.of_nat (length b))) by lia.
+             rewrite <- app_assoc.
+             unfold deliver. cbn [pers nreq].
+             destruct (resp (nreq x)); [destruct (pers x)|]; try reflexivity;
+               match goal with |- context [D ?u ?w] => destruct (D u w) end; reflexivity.
+        * (* chunked decoder in the middle of a chunk *)
+          destruct (d_md d) eqn:Emd; try (exfalso; apply Hns; discriminate).
+          assert (Hlt : (N.of_nat (length b) < d_rem d)%N)
+            by (destruct (N.leb (d_rem d) (N.of_nat (length b))) eqn:E; [exfalso; apply Hns; intros _; lia|lia]).
+          destruct d as [dm ds dr dc]. cbn [d_md d_rem] in *. subst dm.
+          unfold C22.Model.step, dec_of in Es.
+          cbn [md buf C22.Model.start remaining rcvd d_md d_start d_rem d_rcvd] in Es.
+          destruct (N.leb dr (N.of_nat (length b))) eqn:El; [lia|].
+          injection Es as <- <- <-. rewrite D_nil. unfold bind. cbn [app concat]. rewrite app_nil_r.
+          destruct c as [|c0 cl].
+          { rewrite app_nil_r. rewrite (D_ne x b Hb).
+            unfold C18.Model.step. rewrite Ep. unfold C22.Model.step, dec_of.
+            cbn [md buf C22.Model.start remaining rcvd d_md d_start d_rem d_rcvd]. rewrite El.
+            rewrite !D_nil. cbn [concat app]. rewrite !app_nil_r. reflexivity. }
+          remember (c0 :: cl) as c eqn:Hceq. assert (Hc : c <> []) by (subst; discriminate). clear Hceq c0 cl.
+          rewrite (D_ne x (b ++ c) Hbc). rewrite (D_ne _ c Hc).
+          unfold C18.Model.step. rewrite Ep. cbn [ph hsize pers nreq].
+          unfold C22.Model.step, dec_of, d_of.
+          cbn [md buf C22.Model.start remaining rcvd d_md d_start d_rem d_rcvd].
+          assert (Hlen : length (b ++ c) = length b + length c) by apply app_length.
+          destruct (N.leb (dr - N.of_nat (length b)) (N.of_nat (length c))) eqn:E2.
+          -- destruct (N.leb dr (N.of_nat (length (b ++ c)))) eqn:E3; [|lia].
+             cbn [md buf C22.Model.start remaining rcvd concat].
+             rewrite firstn_app, (@firstn_all2 _ (N.to_nat dr) b) by lia.
+             rewrite skipn_app, (@skipn_all2 _ (N.to_nat dr) b) by lia. cbn [app].
+             replace (N.to_nat dr - length b) with (N.to_nat (dr - N.of_nat (length b))) by lia.
+             rewrite !app_nil_r. rewrite <- app_assoc.
+             match goal with |- context [D ?u ?w] => destruct (D u w) end; reflexivity.
+          -- destruct (N.leb dr (N.of_nat (length (b ++ c)))) eqn:E3; [lia|].
+             cbn [md buf C22.Model.start remaining rcvd concat].
+             replace (dr - N.of_nat (length (b ++ c)))%N with (dr - N.of_nat (length b) - N.of_nat (length c))%N by lia.
+             rewrite !app_nil_r. rewrite <- app_assoc.
+             match goal with |- context [D ?u ?w] => destruct (D u w) end; reflexivity.
+        * (* dead *)
+          injection Es as <- <- <-. rewrite D_nil. unfold bind. cbn [app].
+          rewrite (D_ne x (b ++ c) Hbc).
+          unfold C18.Model.step. rewrite Ep. rewrite D_nil.
+          destruct c as [|c0 cl]; [rewrite D_nil; reflexivity|].
+          rewrite (D_ne x (c0 :: cl)) by discriminate. unfold C18.Model.step. rewrite Ep, D_nil. reflexivity.
+    - (* waiting: only decoder bookkeeping changed *)
+      destruct Hext as [HI' Hs]. unfold bind. cbn [app].
+      rewrite (D_ne x (b ++ c) Hbc), (D_ne x' (b ++ c) Hbc), Hs.
+      destruct (step x (b ++ c)) as [e2 x2 r2|x2|e2]; try reflexivity. destruct (D x2 r2); reflexivity.
+    - rewrite (D_ne x (b ++ c) Hbc), Hext. reflexivity.
+  Qed.
+End Seg2.
+
+(** ---- any number of deliveries (Seg.v, layer 1) ---- *)
+From TwLib Require Import Seg.
+
+Section Seg3.
+  Variable resp : nat -> bool.
+  Notation step := (C18.Model.step resp).
+  Notation D := (C18.Model.D resp).
+  Notation feed := (C18.Model.feed resp).
+
+  Lemma D_CInv : forall n x b e x' r, cmu x b < n -> CInv x b -> D x b = (e, Some (x', r)) -> CInv x' r.
+  Proof.
+    induction n as [|n IH]; intros x b e x' r Hn HI H; [lia|].
+    destruct b as [|b0 bl].
+    { rewrite D_nil in H. inversion H; subst. exact HI. }
+    assert (Hb : b0 :: bl <> []) by discriminate.
+    pose proof (step_ext resp x (b0 :: bl) [] HI Hb) as Hext.
+    rewrite (D_ne resp x _ Hb) in H.
+    destruct (step x (b0 :: bl)) as [e1 x1 r1|x1|e1] eqn:Es.
+    - destruct Hext as [HI1 _].
+      assert (Hmu : cmu x1 r1 < cmu x (b0 :: bl)) by (eapply step_emit_mu; eauto).
+      destruct (D x1 r1) as [e2 s2] eqn:Ed. inversion H; subst.
+      eapply (IH x1 r1); [lia|exact HI1|exact Ed].
+    - destruct Hext as [HI1 _]. inversion H; subst. exact HI1.
+    - discriminate.
+  Qed.
+
+  (* nothing is left to do until more bytes arrive *)
+  Definition SInv (s : state) : Prop :=
+    match s with Some (x, b) => CInv x b /\ D x b = ([], Some (x, b)) | None => True end.
+
+  Lemma D_settled : forall x b e x' r, CInv x b -> D x b = (e, Some (x', r)) -> D x' r = ([], Some (x', r)).
+  Proof.
+    intros x b e x' r HI H.
+    pose proof (D_app resp (S (cmu x b)) x b [] (Nat.lt_succ_diag_r _) HI) as Ha.
+    rewrite app_nil_r, H in Ha. unfold bind in Ha. rewrite app_nil_r in Ha.
+    destruct (D x' r) as [e' s']. inversion Ha as [[H1 H2]].
+    assert (e' = []) as -> by (apply (app_inv_head e); rewrite app_nil_r; symmetry; exact H1).
+    reflexivity.
+  Qed.
+
+  Lemma feed_SInv : forall s c, SInv s -> SInv (snd (feed s c)).
+  Proof.
+    intros [[x b]|] c H; simpl; [|exact I]. destruct H as [HI _].
+    destruct (D x (b ++ c)) as [e [[x' r]|]] eqn:Ed; simpl; [|exact I].
+    split.
+    - eapply (D_CInv (S (cmu x (b ++ c)))); [apply Nat.lt_succ_diag_r|apply CInv_ext; exact HI|exact Ed].
+    - eapply D_settled; [apply CInv_ext; exact HI|exact Ed].
+  Qed.
+
+  Lemma feed_nil : forall s, SInv s -> feed s [] = ([], s).
+  Proof. intros [[x b]|] H; simpl; [|reflexivity]. rewrite app_nil_r. apply H. Qed.
+
+  Lemma feed_app : forall s a b, SInv s ->
+    feed s (a ++ b) = let (e1, s1) := feed s a in let (e2, s2) := feed s1 b in (e1 ++ e2, s2).
+  Proof.
+    intros [[x buf]|] a b H; simpl; [|reflexivity]. destruct H as [HI _].
+    rewrite app_assoc.
+    rewrite (D_app resp (S (cmu x (buf ++ a))) x (buf ++ a) b (Nat.lt_succ_diag_r _) (CInv_ext _ _ _ HI)).
+    unfold bind. destruct (D x (buf ++ a)) as [e1 [[x1 r1]|]]; simpl.
+    - destruct (D x1 (r1 ++ b)); reflexivity.
+    - rewrite app_nil_r. reflexivity.
+  Qed.
+
+  Lemma SInv_start : SInv start.
+  Proof. split; [exact I|apply D_nil]. Qed.
+
+  (** deliveries only: what the channel does is a function of the concatenation *)
+  Theorem deliveries_concat : forall cs, Seg.run feed start cs = feed start (concat cs).
+  Proof.
+    intros cs. apply (run_concat feed SInv); auto using feed_SInv, feed_nil, feed_app, SInv_start.
+  Qed.
+
+  Lemma run_deliveries : forall cs s, C18.Model.run resp s (map Deliver cs) = Seg.run feed s cs.
+  Proof.
+    induction cs as [|c cs IH]; intros s; simpl; [reflexivity|].
+    destruct (feed s c) as [e s1]. rewrite IH. reflexivity.
+  Qed.
+End Seg3.
